@@ -64,6 +64,48 @@ pub fn int_points() -> Vec<Big> {
     v
 }
 
+/// the power-of-two lattice: +-2^k and its neighbours for every k in 0..=128, in the narrowest
+/// representation that holds the value — every operation whose exact result crosses a width
+/// boundary (2 ** 127, 2^64 * 2^63, 2^127 + 2^127, ...) has operands in this set
+pub fn lattice_operands(tier: Tier) -> Vec<Operand> {
+    let p = |e: u32| Big::from_i128(2).pow(e as u64, 400).unwrap();
+    let one = Big::from_i128(1);
+    let lo = p(127).negate();
+    let hi = p(128);
+    let mut pts: Vec<Big> = vec![];
+    for k in 0..=128u32 {
+        pts.push(p(k));
+        pts.push(p(k).sub(&one));
+        pts.push(p(k).negate());
+        if tier == Tier::Thorough {
+            pts.push(p(k).add(&one));
+            pts.push(p(k).negate().add(&one));
+            pts.push(p(k).negate().sub(&one));
+        }
+    }
+    for s in [3i128, 5, 6, 7, 9, 10, 100, 127, 128, 129] {
+        pts.push(Big::from_i128(s));
+    }
+    pts.retain(|x| *x >= lo && *x < hi);
+    pts.sort();
+    pts.dedup();
+    pts.into_iter()
+        .map(|m| {
+            let s = m.to_string();
+            let form = if s.parse::<i64>().is_ok() {
+                "i64"
+            } else if s.parse::<u64>().is_ok() {
+                "u64"
+            } else if s.parse::<i128>().is_ok() {
+                "i128"
+            } else {
+                "u128"
+            };
+            Operand { math: m, form }
+        })
+        .collect()
+}
+
 pub fn operands(tier: Tier) -> Vec<Operand> {
     let mut out = vec![];
     for m in int_points() {
@@ -606,6 +648,38 @@ pub fn main(args: Args) -> i32 {
             t.entry(k).or_default().push(v);
         }
     });
+    // the power-of-two lattice (no representation table: one form per value)
+    let lat = lattice_operands(args.tier);
+    let nl = lat.len() as u64;
+    acc.count("lattice_operands", nl);
+    par_chunks(nl * nl, 256, &acc, |r, l| {
+        let env = Environment::new();
+        for idx in r {
+            let a = &lat[(idx / nl) as usize];
+            let b = &lat[(idx % nl) as usize];
+            for op in OPS {
+                l.evals += 1;
+                let (out, f) = check_binop(&env, a, b, op);
+                if let Out::Int(s) = &out {
+                    l.nontrivial.insert(fnv(format!("{}|{}|{}|{}", a.math, op, b.math, s).as_bytes()));
+                }
+                l.outcome(&format!(
+                    "binop {} -> {}",
+                    op,
+                    match &out {
+                        Out::Int(_) => "int",
+                        Out::Float(_) => "float",
+                        Out::Err(_) => "error",
+                        Out::Panic(_) => "panic",
+                        Out::Other(_) => "other",
+                    }
+                ));
+                if let Some(f) = f {
+                    acc.fail(f);
+                }
+            }
+        }
+    });
     // width independence
     let table = table.into_inner().unwrap();
     for ((a, b, op), outs) in &table {
@@ -681,7 +755,7 @@ pub fn main(args: Args) -> i32 {
             level: "exploration",
             tier: args.tier,
             seed: args.seed,
-            rule: format!("all ordered pairs of {} integer operands ({} boundary points of [-2^127,2^128) in every representation that holds them: literal, i64, u64, i128, u128{}) x 6 binary operators + unary minus, adjudicated by an arbitrary-precision integer oracle (self-tested against i128 at start-up); same (a,b,op) across representations must agree; Euclid identity and range for all pairs of 33 small dyadic floats/ints in literal and variable form; 12 comparison forms for every integer operand x 29 floats against exact rational comparison. distinct non-trivial = distinct (a,op,b,integer result) tuples", operands(args.tier).len(), int_points().len(), if args.tier == Tier::Quick { "; quick keeps literal+narrowest+widest" } else { "" }),
+            rule: format!("all ordered pairs of {} integer operands ({} boundary points of [-2^127,2^128) in every representation that holds them: literal, i64, u64, i128, u128{}) x 6 binary operators + unary minus, plus all ordered pairs of the power-of-two lattice (2^k, 2^k - 1, -2^k for every k in 0..=128; thorough also 2^k + 1 and the negated neighbours; narrowest representation) x 6 operators, adjudicated by an arbitrary-precision integer oracle (self-tested against i128 at start-up); same (a,b,op) across representations must agree; Euclid identity and range for all pairs of 33 small dyadic floats/ints in literal and variable form; 12 comparison forms for every integer operand x 29 floats against exact rational comparison. distinct non-trivial = distinct (a,op,b,integer result) tuples", operands(args.tier).len(), int_points().len(), if args.tier == Tier::Quick { "; quick keeps literal+narrowest+widest" } else { "" }),
             exhaustive: true,
             bound: json!({"int_points": int_points().iter().map(|b| b.to_string()).collect::<Vec<_>>(), "ops": OPS}),
             assumptions: vec![
